@@ -36,32 +36,56 @@ Gap(ev) == <<ev.up[2], ev.down[1]>>
 (* order): junction coordinates agree, inner exons coincide; a one-exon chain    *)
 (* (retained intron) is carried by an exon that covers the whole intron and at   *)
 (* least one base on either side                                                  *)
-HasChainAt(t, k, ch, gap) ==
+(* k = <<k1, k2>>: the chain's first exon is t's k1-th exon, its last exon t's k2-th; inner    *)
+(* chain exons are exons of t in between.  Further exons of t between k1 and k2 ("interjacent"   *)
+(* exons) are allowed when they have nothing to do with the event - they overlap no exon of      *)
+(* either form, i.e. they lie inside the event's introns: the form is then carried up to those   *)
+(* extra exons, and they are not part of the event's other form.                                 *)
+Tight(k, ch) == k[2] - k[1] + 1 = Len(ch)
+IvOverlap(a, b) == a[1] < b[2] /\ b[1] < a[2]
+EventExons(ev) == {Chain(ev, "inc")[j] : j \in 1..Len(Chain(ev, "inc"))} \cup {Chain(ev, "skip")[j] : j \in 1..Len(Chain(ev, "skip"))}
+HasChainAtEv(t, k, ch, gap, evx) ==
   LET n == Len(ch) IN
-  IF n = 1 THEN k \in 1..Len(t.exons) /\ t.exons[k][1] < gap[1] /\ gap[2] < t.exons[k][2]
-  ELSE /\ k >= 1 /\ k + n - 1 <= Len(t.exons)
-       /\ t.exons[k][2] = ch[1][2]
-       /\ t.exons[k + n - 1][1] = ch[n][1]
-       /\ \A j \in 1..(n - 2) : t.exons[k + j] = ch[j + 1]
-ChainPlaces(t, ch, gap) == {k \in 1..Len(t.exons) : HasChainAt(t, k, ch, gap)}
-HasForm(t, ev, form) == ChainPlaces(t, Chain(ev, form), Gap(ev)) # {}
+  IF n = 1 THEN k[1] = k[2] /\ k[1] \in 1..Len(t.exons) /\ t.exons[k[1]][1] < gap[1] /\ gap[2] < t.exons[k[1]][2]
+  ELSE /\ k[1] >= 1 /\ k[1] < k[2] /\ k[2] <= Len(t.exons)
+       /\ t.exons[k[1]][2] = ch[1][2]
+       /\ t.exons[k[2]][1] = ch[n][1]
+       /\ \A j \in 2..(n - 1) : \E x \in (k[1] + 1)..(k[2] - 1) : t.exons[x] = ch[j]
+       /\ \A x \in (k[1] + 1)..(k[2] - 1) :
+             (\E j \in 2..(n - 1) : t.exons[x] = ch[j]) \/ (\A e \in evx : ~IvOverlap(t.exons[x], e))
+(* Interjacent exons are only admitted for events whose two forms are single junctions (A5SS,   *)
+(* A3SS): there "the transcript with the other splice site used" is one well-defined sequence.   *)
+(* For SE / MXE (forms with two junctions) a transcript with extra exons between the event's      *)
+(* exons has several candidate "alternative forms" (one junction realised, or both); the         *)
+(* statement does not single one out, so such transcripts are out of scope (counted only).       *)
+SingleJunctionEvent(ev) == ev.type \in {"A5SS", "A3SS"}
+ChainPlacesEv(t, ev, form) ==
+  {k \in (1..Len(t.exons)) \X (1..Len(t.exons)) :
+     /\ HasChainAtEv(t, k, Chain(ev, form), Gap(ev), EventExons(ev))
+     /\ (Tight(k, Chain(ev, form)) \/ SingleJunctionEvent(ev))}
+(* the form is carried without interjacent exons                                               *)
+HasForm(t, ev, form) == ChainPlacesEv(t, ev, form) # {}
+HasFormTight(t, ev, form) == \E k \in ChainPlacesEv(t, ev, form) : Tight(k, Chain(ev, form))
 
-(* t with the n exons from k on (which carry one form) re-spliced as chain b     *)
-Respliced(t, k, n, b) ==
+(* t with the exons k[1]..k[2] (which carry one form) re-spliced as chain b                    *)
+Respliced(t, k, b) ==
   LET m == Len(b)
-      firstStart == t.exons[k][1]
-      lastEnd == t.exons[k + n - 1][2]
+      firstStart == t.exons[k[1]][1]
+      lastEnd == t.exons[k[2]][2]
       mid == IF m = 1 THEN <<<<firstStart, lastEnd>>>>
              ELSE <<<<firstStart, b[1][2]>>>> \o SubSeq(b, 2, m - 1) \o <<<<b[m][1], lastEnd>>>>
-  IN SubSeq(t.exons, 1, k - 1) \o mid \o SubSeq(t.exons, k + n, Len(t.exons))
+  IN SubSeq(t.exons, 1, k[1] - 1) \o mid \o SubSeq(t.exons, k[2] + 1, Len(t.exons))
 
 WellFormed(ex) == /\ \A k \in 1..Len(ex) : ex[k][1] < ex[k][2]
                   /\ \A k \in 1..(Len(ex) - 1) : ex[k][2] < ex[k + 1][1]
 
 (* every alternative form of t under the event: <<target form, exon list>>        *)
+(* a transcript that carries a form only up to interjacent exons has two alternative forms: the    *)
+(* other form, and its own form with the junction realised (interjacent exons gone)                *)
 AltForms(t, ev) ==
-  UNION {{<<Other(f), Respliced(t, k, Len(Chain(ev, f)), Chain(ev, Other(f)))>> :
-            k \in ChainPlaces(t, Chain(ev, f), Gap(ev))} : f \in {"inc", "skip"}}
+  UNION {{<<Other(f), Respliced(t, k, Chain(ev, Other(f)))>> : k \in ChainPlacesEv(t, ev, f)}
+           \cup {<<f, Respliced(t, k, Chain(ev, f))>> : k \in {x \in ChainPlacesEv(t, ev, f) : ~Tight(x, Chain(ev, f))}}
+         : f \in {"inc", "skip"}}
 AltSeqs(chrom, t, ev) ==
   {<<a[1], TxSeq(chrom, [t EXCEPT !.exons = a[2]])>> : a \in {x \in AltForms(t, ev) : WellFormed(x[2])}}
 
